@@ -135,6 +135,7 @@ def check_cases(cases, out, label):
         kmin, kmax = min(K), max(K)
         knots_lit = H.cRpairs(zk, K)
         vals = {}
+        returned_above = set()
         for z in c['levels'] + c['above']:
             out.evaluations += 1
             arg = as_form(z, c['form'])
@@ -155,7 +156,12 @@ def check_cases(cases, out, label):
                 continue
             v = float(v)
             if z > zn:
+                # outside the property's quantifier ("for water levels up to the highest knot"): QUADPACK
+                # evaluates the integrand only at interior nodes, so a level slightly above the highest knot may
+                # never trigger the NotImplementedError of conductivity(); whatever is returned is not judged.
                 out.count('above:value')
+                returned_above.add(z)
+                continue
             vals[z] = v
             if not math.isfinite(v):
                 out.violation('oracle', 'transmissivity is not finite (%r): %s' % (v, msg_in), case=jcase)
@@ -197,7 +203,7 @@ def check_cases(cases, out, label):
                               % (name, arr, [vals[z] for z in ok_levels], zk, K, ok_levels), case=jcase)
             elif not (isinstance(arr, np.ndarray) and arr.dtype == np.float64):
                 out.violation('oracle', 'array path does not return a float64 array', case=jcase)
-        refused = [z for z in c['above'] if z not in vals]
+        refused = [z for z in c['above'] if z not in vals and z not in returned_above]
         if refused:
             st, arr = call(T, np.array(ok_levels + refused[:1]))
             if (st, arr) != ('err', 'ENotImpl'):
